@@ -1,0 +1,34 @@
+//go:build verif
+
+package dag
+
+// Contracts for the entity DAG code (properties C01-C08).
+// Comment-only file: it is compiled only with -tags verif and contains no code.
+
+//@ func readOperationPack
+//@   props C07 C08
+//@   nopanic
+//@   requires repo != nil && def.OperationUnmarshaler != nil
+
+// Definition.OperationUnmarshaler is a function-typed field: the contract below is what callers assume
+// of it; bug.operationUnmarshaler (the implementation used for bugs) is verified against the same clause.
+//@ func Definition.OperationUnmarshaler
+//@   modifies nothing
+//@   ensures [op-or-error] result1 == nil ==> result != nil
+
+// Every operation type embeds OpBase; setId/setAuthor only touch its id/author fields.
+//@ func Operation.setId
+//@   modifies all(OpBase.id)
+//@ func Operation.setAuthor
+//@   modifies all(OpBase.author)
+
+//@ func unmarshallPack
+//@   props C07
+//@   nopanic
+//@   requires def.OperationUnmarshaler != nil
+//@   ensures [author-set] result2 == nil ==> result1 != nil
+//@   ensures [ops-set]    result2 == nil ==> (forall k int :: { result[k] } 0 <= k && k < len(result) ==> result[k] != nil)
+//@   loop 1
+//@     invariant len(ops) <= rangeindex + 1
+//@     invariant ops == nil || fresh(ops)
+//@     invariant forall k int :: { ops[k] } 0 <= k && k < len(ops) ==> ops[k] != nil
